@@ -481,7 +481,7 @@ func (c *SpecCtx) trBinary(x *SBinary) Term {
 		if b.Sort.Kind == KMap {
 			dom, _ := c.vc.mapHeaps(c.state(), b.Sort)
 			a = c.coerce(a, b.Sort.Key)
-			return Term{"(select (select " + dom.S + " " + b.S + ") " + a.S + ")", sortBool}
+			return Term{sAnd(sNot(sEq(b.S, "0")), "(select (select "+dom.S+" "+b.S+") "+a.S+")"), sortBool}
 		}
 		return c.errorf("'in' needs a set or map on the right")
 	}
